@@ -18,7 +18,7 @@ from vlib.common import COQ
 W = 2 ** 256
 FOREIGN = 1_000_000
 
-MODEL_FILES = ["C14M/MemSem.v", "C14M/MemFacts.v", "C14M/MemDse.v"]
+MODEL_FILES = ["C14M/MemSem.v", "C14M/MemFacts.v", "C14M/MemDse.v", "C14M/MemRun.v"]
 PROOF_FILES = ["C14M/MemSemProofs.v", "C14M/MemFactsProofs.v", "C14M/MemFwdProofs.v", "C14M/MemDseProofs.v", "C14M/PropsMem.v"]
 TIE_FILES = ["C14M/GenMemEffects.v", "C14M/MemTie.v"]
 MODEL_DEPS = ["C14/RangeBase.v", "C14/MemLocBase.v", "C14/GenMemLoc.v"]
@@ -207,24 +207,15 @@ IMPORTS = ("From Coq Require Import NArith.\nFrom Verif Require Import C14M.MemS
 
 
 def evaluate(records, name="c14m", shard=8, timeout=900):
-    """per record -> verdict: 'accepted' (strict, proved checker), 'unsupported' (only the liberal variant accepts), 'rejected'"""
-    def run(recs, liberal, tag):
-        exprs = []
-        for r in recs:
-            chk = ("fwd_check" if r["kind"] == "fwd" else "dse_check") + ("_liberal" if liberal else "")
-            exprs.append(f"let f : func := {r['before']} in let g : func := {r['after']} in [if {chk} f g then 1 else 0]")
-        return coqrun.eval_zlists(IMPORTS, exprs, tag, shard=shard, timeout=timeout) if exprs else []
-    strict = run(records, False, name)
-    verdicts = ["accepted" if (o and o[0] == 1) else None for o in strict]
-    rest = [r for r, v in zip(records, verdicts) if v is None]
-    lib = iter(run(rest, True, name + "_lib"))
-    out = []
-    for v in verdicts:
-        if v is None:
-            o = next(lib)
-            v = "unsupported" if (o and o[0] == 1) else "rejected"
-        out.append(v)
-    return out
+    """per record -> verdict: 'accepted' (strict, proved checker), 'unsupported' (only the liberal variant accepts), 'rejected'.
+    One vm_compute per record: the liberal variant is only evaluated when the strict one says no."""
+    exprs = []
+    for r in records:
+        chk = "fwd_check" if r["kind"] == "fwd" else "dse_check"
+        exprs.append(f"let f : func := {r['before']} in let g : func := {r['after']} in "
+                     f"[if {chk} f g then 1 else if {chk}_liberal f g then 2 else 0]")
+    outs = coqrun.eval_zlists(IMPORTS, exprs, name, shard=shard, timeout=timeout) if exprs else []
+    return [{1: "accepted", 2: "unsupported"}.get(o[0] if o else 0, "rejected") for o in outs]
 
 
 def _prep(entry):
@@ -308,27 +299,32 @@ def part_mem_passes(ctx):
     b, tie = _build(ctx)
     quick = ctx.tier == "quick"
     rnd = ctx.rng("c14m")
-    progs = PC.select(ctx.tier, rnd)
+    if quick:
+        # all priority-0 programs + a small seeded sample of the others (the pass-level part compiles the full quick selection)
+        progs = ([c for c in PC.CORPUS if c["prio"] == 0] + rnd.sample([c for c in PC.CORPUS if c["prio"] == 1], 3)
+                 + rnd.sample([c for c in PC.CORPUS if c["prio"] == 2], 2))
+    else:
+        progs = PC.select(ctx.tier, rnd)
     levels = ["gas"] if quick else ["gas", "codesize", "O3"]
-    with Observer(max_insts=700 if quick else 1500) as obs:
+    with Observer(max_insts=500 if quick else 1500) as obs:
         nfail = compile_corpus(progs, levels, obs)
     ctx.log(f"  c14m: build+compile {time.time()-t0:.0f}s, {len(obs.records)} changed invocations")
     for e in obs.errors[:3]:
         ctx.violation("correspondence-broken", "cannot export a pass invocation: " + e, {"errors": obs.errors[:5]})
     recs = obs.records
-    if quick and len(recs) > 44:
-        # the invocations on the priority programs first, then a seeded sample
-        prio = {c["name"] for c in progs if c.get("prio") == 0}
-        head = [r for r in recs if r["context"][0] in prio][:28]
+    if quick and len(recs) > 16:
+        # the 4 largest functions, then a seeded sample (thorough validates everything)
+        by_size = sorted(recs, key=lambda r: -r["ninsts"])
+        head = by_size[:4]
         rest = [r for r in recs if r not in head]
-        recs = head + rnd.sample(rest, min(len(rest), 44 - len(head)))
+        recs = head + rnd.sample(rest, min(len(rest), 12))
     stats = {"invocations": dict(obs.n_invocations), "changed": dict(obs.n_changed), "distinct_changed_exported": len(obs.records),
              "evaluated": len(recs), "too_big_skipped": obs.skipped_big, "compile_failures": nfail, "programs": len(progs), "levels": levels,
              "verdicts": {}}
     verdicts = []
     if recs and (COQ / "C14M" / "MemDse.vo").exists():
         try:
-            verdicts = evaluate(recs, shard=max(1, len(recs) // 10), timeout=1500)
+            verdicts = evaluate(recs, shard=1 if quick else max(1, len(recs) // 14), timeout=1500)
         except RuntimeError as e:
             ctx.violation("correspondence-broken", "the validators of the memory passes could not be evaluated", {"error": str(e)[-1500:]})
             recs = []
@@ -387,12 +383,21 @@ def part_mem_passes(ctx):
     if not b["ok"] and not reported:
         ctx.violation("theorem-broken", f"{b.get('failed_lemma')} in {b['file']}", {"theorem": b.get("failed_lemma"), "file": b["file"],
                                                                                      "coq_output": b["out"][-1500:]})
+    # hand-written IR families (aliasing stores, stores between identical loads): validators + real back end + MemRun.v
+    import sys
+    from vlib import c14m_hand
+    try:
+        nh, hstats = c14m_hand.run(ctx, sys.modules[__name__])
+    except Exception as e:  # noqa
+        nh, hstats = 0, {"error": f"{type(e).__name__}: {e}"}
+        ctx.violation("correspondence-broken", "the hand-written IR families could not be run", hstats)
+    stats["hand_ir"] = hstats
     stats["seconds"] = round(time.time() - t0, 1)
     ctx.corr["memory_passes"] = stats
     acc = [r for r, v in zip(recs, verdicts) if v == "accepted"]
     if acc:
         ctx.samples.append({"accepted": acc[0]["pass_name"], "program": acc[0]["context"][0], "function": acc[0]["fn"], "changes": acc[0]["changes"][:3]})
-    return sum(d["accepted"] + d["unsupported"] + d["rejected"] for d in stats["verdicts"].values())
+    return nh + sum(d["accepted"] + d["unsupported"] + d["rejected"] for d in stats["verdicts"].values())
 
 
 def _tie_defs():
